@@ -306,7 +306,26 @@ func (p *parser) parsePermissionExpressions(finalToken itemType, depth int) *ast
 			expressionNestingMaxDepth)
 		return nil
 	}
-	var root *ast.SubjectSetRewrite
+	// root is the operand of "||" that is currently being parsed, i.e., a
+	// chain of expressions joined by "&&". "&&" binds tighter than "||", as in
+	// TypeScript, so every "||" closes the current chain (into orOperands)
+	// and starts a new one.
+	var (
+		root       *ast.SubjectSetRewrite
+		orOperands []ast.Child
+	)
+	finish := func() *ast.SubjectSetRewrite {
+		if len(orOperands) == 0 {
+			return root
+		}
+		if root != nil {
+			orOperands = append(orOperands, root)
+		}
+		return &ast.SubjectSetRewrite{
+			Operation: ast.OperatorOr,
+			Children:  orOperands,
+		}
+	}
 
 	// We only expect an expression in the beginning and after a binary
 	// operator.
@@ -329,12 +348,12 @@ func (p *parser) parsePermissionExpressions(finalToken itemType, depth int) *ast
 
 		case item.Typ == finalToken:
 			p.next() // consume final token
-			return root
+			return finish()
 
 		case item.Typ == itemBraceRight:
 			// We don't consume the '}' here, to allow `parsePermits` to consume
 			// it.
-			return root
+			return finish()
 
 		case item.Typ == itemOperatorAnd, item.Typ == itemOperatorOr:
 			p.next() // consume operator
@@ -344,11 +363,15 @@ func (p *parser) parsePermissionExpressions(finalToken itemType, depth int) *ast
 			if root == nil {
 				return nil
 			}
-			newRoot := &ast.SubjectSetRewrite{
-				Operation: setOperation(item.Typ),
-				Children:  []ast.Child{root},
+			if item.Typ == itemOperatorOr {
+				orOperands = append(orOperands, root)
+				root = nil
+			} else {
+				root = &ast.SubjectSetRewrite{
+					Operation: setOperation(item.Typ),
+					Children:  []ast.Child{root},
+				}
 			}
-			root = newRoot
 			expectExpression = true
 
 		// A "not" creates an AST node where the children are either a
